@@ -285,6 +285,9 @@ Fixpoint list_eqb {A} (eqb : A -> A -> bool) (a b : list A) : bool :=
 Definition proper_prefix (a b : dotted) : bool :=
   match strip_prefix a b with Some (_ :: _) => true | _ => false end.
 
+Definition covered_by_star (names : list (N * option N)) : bool :=
+  forallb (fun na : N * option N => match snd na with None => true | Some _ => false end) names.
+
 (* actions.AddingVisitor for one new import: result = Some s' when the existing statement s absorbs it *)
 Definition adding_visit (s new : istmt) : option istmt :=
   match s, new with
@@ -298,8 +301,10 @@ Definition adding_visit (s new : istmt) : option istmt :=
       end
   | IFrom el em en, IFrom nl nm nn =>
       if dotted_eqb em nm && Nat.eqb el nl then
-        if is_star en then Some s
-        else if is_star nn then Some new
+        (* a star import only absorbs what it binds: un-aliased names (actions._covered_by_star; every
+           identifier of the model is public) *)
+        if is_star en then (if covered_by_star nn then Some s else None)
+        else if is_star nn then (if covered_by_star en then Some new else None)
         else Some (IFrom el em (en ++ filter (fun p => negb (existsb (pairN_eqb p) en)) nn))
       else None
   | _, _ => None
@@ -330,8 +335,10 @@ Arguments Crash {A}. Arguments NoFuel {A}. Arguments Done {A} x.
                 = true  : the import context carries the importing module's folder
      v_rootfrom = false : as found — _change_import_statements is skipped when the destination is a source root
                 = true  : it always runs; a module that becomes top-level is re-imported with  import b [as x]  *)
-Record variant := { v_relctx : bool; v_rootfrom : bool }.
-Definition as_found : variant := {| v_relctx := false; v_rootfrom := false |}.
+Record variant := { v_relctx : bool; v_rootfrom : bool; v_case3abs : bool }.
+(* v_case3abs = false : Case 3 keeps the level of the old from-statement with the (absolute) new module name
+              = true  : Case 3 writes an absolute from-import (proposed_fixes/C05-case3-absolute-level.diff) *)
+Definition as_found : variant := {| v_relctx := false; v_rootfrom := false; v_case3abs := false |}.
 
 Section MoveModule.
   Variable V : variant.
@@ -394,7 +401,7 @@ Section MoveModule.
                 match stmt2' with
                 | IFrom lv mn nms =>
                     if negb (stmt_is_empty stmt2') && res_opt_is ir src
-                    then IFrom lv new_name nms else stmt2'
+                    then IFrom (if v_case3abs V then 0 else lv) new_name nms else stmt2'
                 | s => s
                 end in
               Done (firstn i imps2 ++ [stmt3] ++ skipn (S i) imps2)
